@@ -22,7 +22,7 @@ func init() {
 		Rules: []Rule{
 			{ID: "C04.R1", Floor: 7, Run: c04r1, Text: "word uniformity and completeness: in every method of Mask, the sub-expressions over bits[k] are identical up to k, every k in [0,len) occurs exactly once, joined by a single connective (or positionally in the array literal)"},
 			{ID: "C04.R2", Floor: 9, Run: c04r2, Text: "bit-parallel semantics (E-tt): the per-word expression folded over (b,o) ∈ {0,1}² equals: And→∧, Or→∨, Xor→⊕, Not→¬, Contains→∀(o→b), ContainsAny→∃(b∧o), IsZero→∀¬b, Reset→0, TotalBitsSet→Σ popcount"},
-			{ID: "C04.R3", Floor: 2, Run: c04r3, Text: "Get/Set indexing: word = id / W (or >> log2 W), bit = id % W (or id - W*word, id & (W-1)) with W the element width; Get tests and Set sets/clears 1<<bit of that word"},
+			{ID: "C04.R3", Floor: 2, Run: c04r3, Text: "Get/Set bit addressing, decided per id (bit-level abstract interpretation of the SSA, id and value concrete, words symbolic bit by bit): Get(id) is exactly bit id%W of word id/W; Set(id, v) makes that bit v and leaves every other bit of every word unchanged - for every id of the build and any spelling of the addressing"},
 			{ID: "C04.R4", Floor: 12, Run: c04r4, Text: "filters (E-tt): MaskFilter.Matches ≡ include ⊆ m ∧ exclude ∩ m = ∅; Mask.Matches ≡ b ⊆ m; Exclusive = (b, ¬b); Without = (b, All(ids)); AND/OR/XOR/NOT ≡ ∧/∨/⊕/¬ of the operands' Matches; ANY/NoneOF/AnyNOT ≡ ∃, ¬∃, ¬⊆; RelationFilter and CachedFilter delegate"},
 			{ID: "C04.R5", Floor: 1, Run: c04r5, Text: "MaskTotalBits = number of words × word width; wordSize is the word width"},
 		},
@@ -565,104 +565,25 @@ func c04r3(p *Prog, r *Reporter) {
 	if !ok {
 		return
 	}
-	W := strconv.Itoa(c.width)
 	for _, n := range []string{"Get", "Set"} {
-		fd := p.FuncDecl("ecs", "Mask", n)
+		fn := p.maskMethodSSA(n)
 		name := "ecs.(*Mask)." + n
-		if fd == nil {
+		if fn == nil {
 			r.Anchor(name)
 			continue
 		}
-		c.recv = recvName(fd)
-		bitParam := fd.Type.Params.List[0].Names[0].Name
-		id := bitParam + ".id"
-		defs := map[string]ast.Expr{}
-		for _, st := range fd.Body.List {
-			if as, ok := st.(*ast.AssignStmt); ok && as.Tok == token.DEFINE {
-				for j, l := range as.Lhs {
-					if idn, ok := l.(*ast.Ident); ok && j < len(as.Rhs) {
-						defs[idn.Name] = as.Rhs[j]
-					}
-				}
+		bad, err := maskBitAddressing(p, c, fn, n == "Set")
+		switch {
+		case err != nil:
+			r.Und(name, "bit addressing", p.FnPos(fn), "the method is outside the bit-level fragment: "+err.Error())
+		case bad != "":
+			r.Bad(name, "bit addressing", p.FnPos(fn), bad)
+		default:
+			what := "returns exactly bit id%W of word id/W"
+			if n == "Set" {
+				what = "changes exactly bit id%W of word id/W to the given value and leaves every other bit of every word as it was"
 			}
-		}
-		norm := func(e ast.Expr) string { return strings.ReplaceAll(p.subst(e, defs, 0), " ", "") }
-		wordForms := map[string]bool{"(" + id + "/" + W + ")": true, "(" + id + ">>" + strconv.Itoa(log2(c.width)) + ")": true}
-		bitForms := map[string]bool{
-			"(" + id + "%" + W + ")":                            true,
-			"(" + id + "&" + strconv.Itoa(c.width-1) + ")":      true,
-			"(" + id + "-(" + W + "*((" + id + "/" + W + "))))": true,
-			"(" + id + "-(" + W + "*(" + id + "/" + W + ")))":   true,
-		}
-		if !c.array {
-			bitForms[id] = true
-		}
-		stripOuter := func(s string) string {
-			for strings.HasPrefix(s, "((") && strings.HasSuffix(s, "))") {
-				s = s[1 : len(s)-1]
-			}
-			return s
-		}
-		var wordIdx, bitIdx []string
-		var shifts []string
-		bad := ""
-		ast.Inspect(fd.Body, func(nd ast.Node) bool {
-			switch x := nd.(type) {
-			case *ast.IndexExpr:
-				if sel, ok := unparen(x.X).(*ast.SelectorExpr); ok && sel.Sel.Name == "bits" {
-					wordIdx = append(wordIdx, stripOuter(norm(x.Index)))
-				}
-			case *ast.BinaryExpr:
-				if x.Op == token.SHL {
-					if lit, ok := unparen(x.X).(*ast.BasicLit); !ok || lit.Value != "1" {
-						bad = "shift of something other than 1: " + p.src(x)
-					}
-					bitIdx = append(bitIdx, stripOuter(norm(x.Y)))
-					shifts = append(shifts, p.src(x))
-				}
-			}
-			return true
-		})
-		for _, w := range wordIdx {
-			if !wordForms[w] && !wordForms["("+w+")"] {
-				bad = "word index " + w + " is not id/" + W
-			}
-		}
-		if c.array && len(wordIdx) == 0 {
-			bad = "no indexed access to the words"
-		}
-		for _, b := range bitIdx {
-			if !bitForms[b] && !bitForms["("+b+")"] {
-				bad = "bit index " + b + " is not id%" + W + " (or an equivalent form)"
-			}
-		}
-		if len(bitIdx) == 0 {
-			bad = "no 1<<bit expression"
-		}
-		// operation shape
-		body := strings.ReplaceAll(p.src(fd.Body), " ", "")
-		switch n {
-		case "Get":
-			ret, _, ok := inlineBody(fd)
-			if !ok {
-				bad = "Get is not a single return"
-			} else {
-				s := stripOuter(norm(ret))
-				// (word & mask) == mask
-				parts := strings.SplitN(s, "==", 2)
-				if len(parts) != 2 || !strings.Contains(parts[0], "&") || !strings.Contains(parts[0], strings.Trim(parts[1], "()")) {
-					bad = "Get does not have the form word&mask == mask: " + s
-				}
-			}
-		case "Set":
-			if !strings.Contains(body, "|=") || !(strings.Contains(body, "&=^") || strings.Contains(body, "&^=")) {
-				bad = "Set does not set with |= and clear with &= ^mask / &^="
-			}
-		}
-		if bad != "" {
-			r.Und(name, "bit addressing", p.Pos(fd.Pos()), bad)
-		} else {
-			r.OK(name, "bit addressing", p.Pos(fd.Pos()), fmt.Sprintf("word index %v, bit index %v, width %d", uniq(wordIdx), uniq(bitIdx), c.width))
+			r.OK(name, "bit addressing", p.FnPos(fn), fmt.Sprintf("for each of the %d ids of this build: %s (W = %d)", c.words*c.width, what, c.width))
 		}
 	}
 }
